@@ -79,6 +79,18 @@ def run(ctx):
     ctx.ob("R10.4", "%s|log-replaced-by-rename" % SS.key, ok, where=SS.span, detail="the per-target log is created as a NamedTempFile in the log's directory and persisted (renamed) into place")
 
     helper_commit_rule(ctx)
+    ctx.rule("R10.7", "an interrupted build keeps its old dependency list: edges marked by zap_deps1 stay visible to File::deps until zap_deps2 of a *completed* build deletes them")
+    dp = prog.one(r"state::File::deps")
+    z1b = prog.one(r"state::File::zap_deps1")
+    flag = None
+    for (_, _, s_, _) in str_consts(z1b):
+        if sqlc.kind(s_) == "update":
+            flag = (sqlc.set_columns(s_) or [None])[0]
+    dsel = [s_ for (_, _, s_, _) in str_consts(dp) if "deps" in sqlc.norm(s_)]
+    filt = [s_ for s_ in dsel if flag and " where " in sqlc.norm(s_) and re.search(r"\b%s\b" % re.escape(flag), sqlc.norm(s_).split(" where ", 1)[-1])]
+    ctx.ob("R10.7", "deps|marked-edges-still-listed", bool(dsel) and flag is not None and not filt, where=dp.span,
+           detail="File::deps lists marked and unmarked edges alike (flag column %r only used by zap_deps1/2 and add_dep)" % flag if dsel and not filt else
+           "File::deps hides edges marked by zap_deps1: after a kill between the start-of-build commit and the re-declaration of a dependency the target has no inputs left and looks clean")
 
     # ---- R10.5 durable-effect order
     R = anchors.record_new_state(prog)
